@@ -1,0 +1,235 @@
+//go:build verif
+
+package nfsv4
+
+import (
+	"sort"
+
+	"github.com/buildbarn/bb-remote-execution/pkg/filesystem/virtual"
+	"github.com/buildbarn/go-xdr/pkg/protocols/nfsv4"
+)
+
+// This file is only used by external verification tooling. It exports
+// raw copies of the state of the NFSv4.1 server and of the opened
+// files pool. It does not decide anything.
+
+// VerifNFS41LockOwnerFile is a copy of a nfs41LockOwnerFileState.
+type VerifNFS41LockOwnerFile struct {
+	LockOwner   []byte
+	ShareAccess virtual.ShareMask
+	LockCount   int
+	SeqID       uint32
+	Other       uint64
+}
+
+// VerifNFS41OpenOwnerFile is a copy of a nfs41OpenOwnerFileState.
+type VerifNFS41OpenOwnerFile struct {
+	OpenOwner      []byte
+	Handle         []byte
+	ShareAccess    virtual.ShareMask
+	SeqID          uint32
+	Other          uint64
+	Readers        int
+	Writers        int
+	LockOwnerFiles []VerifNFS41LockOwnerFile
+}
+
+// VerifNFS41Slot is a copy of a slotState.
+type VerifNFS41Slot struct {
+	LastSequenceID uint32
+	InFlight       bool
+	Waiters        int
+	CachedStatus   nfsv4.Nfsstat4
+	CachedLength   int
+}
+
+// VerifNFS41Session is a copy of a sessionState.
+type VerifNFS41Session struct {
+	SessionID [16]byte
+	ClientID  uint64
+	Slots     []VerifNFS41Slot
+}
+
+// VerifNFS41Incarnation is a copy of a clientIncarnationState.
+type VerifNFS41Incarnation struct {
+	OwnerID          string
+	ClientID         uint64
+	Verifier         [8]byte
+	Confirmed        bool
+	Idle             bool
+	HoldCount        int
+	LastSeenUnixNano int64
+	LastSequenceID   uint32
+	OpenOwners       int
+	LockOwners       []string
+	LockOwnerFiles   int
+	LastStateIDOther uint64
+	OpenOwnerFiles   []VerifNFS41OpenOwnerFile
+	Sessions         [][16]byte
+}
+
+// VerifNFS41Snapshot is a copy of the state of a nfs41Program.
+type VerifNFS41Snapshot struct {
+	Clients          int
+	Incarnations     []VerifNFS41Incarnation
+	IncarnationsByID int
+	Sessions         []VerifNFS41Session
+	IdleIncarnations int
+}
+
+// VerifNFS41State returns a copy of the state of an NFSv4.1 program
+// created by NewNFS41Program(). The second return value is false if the
+// program is of another type.
+func VerifNFS41State(program nfsv4.Nfs4Program) (VerifNFS41Snapshot, bool) {
+	p, ok := program.(*nfs41Program)
+	if !ok {
+		return VerifNFS41Snapshot{}, false
+	}
+	var s VerifNFS41Snapshot
+	p.clientsLock.Lock()
+	defer p.clientsLock.Unlock()
+
+	s.Clients = len(p.clientsByOwnerID)
+	s.IncarnationsByID = len(p.clientIncarnationsByClientID)
+	for cis := p.idleClientIncarnations.nextIdle; cis != &p.idleClientIncarnations; cis = cis.nextIdle {
+		s.IdleIncarnations++
+	}
+	for _, client := range p.clientsByOwnerID {
+		for _, cis := range client.incarnationsByClientVerifier {
+			cis.lock.RLock()
+			inc := VerifNFS41Incarnation{
+				OwnerID:          client.ownerID,
+				ClientID:         cis.clientID,
+				Verifier:         cis.clientVerifier,
+				Confirmed:        client.confirmedIncarnation == cis,
+				Idle:             cis.nextIdle != nil,
+				HoldCount:        cis.holdCount,
+				LastSeenUnixNano: cis.lastSeen.UnixNano(),
+				LastSequenceID:   cis.lastSequenceID,
+				OpenOwners:       len(cis.openOwnersByOwner),
+				LockOwnerFiles:   len(cis.lockOwnerFilesByOther),
+				LastStateIDOther: cis.lastStateIDOther,
+			}
+			for k := range cis.lockOwnersByOwner {
+				inc.LockOwners = append(inc.LockOwners, k)
+			}
+			sort.Strings(inc.LockOwners)
+			for _, oos := range cis.openOwnersByOwner {
+				for _, oofs := range oos.filesByHandle {
+					f := VerifNFS41OpenOwnerFile{
+						OpenOwner:   []byte(oos.key),
+						Handle:      append([]byte(nil), oofs.openedFile.GetHandle()...),
+						ShareAccess: oofs.shareAccess,
+						SeqID:       oofs.stateID.seqID,
+						Other:       oofs.stateID.other,
+						Readers:     int(oofs.shareCount.readers),
+						Writers:     int(oofs.shareCount.writers),
+					}
+					for los, lofs := range oofs.lockOwnerFiles {
+						f.LockOwnerFiles = append(f.LockOwnerFiles, VerifNFS41LockOwnerFile{
+							LockOwner:   append([]byte(nil), los.owner.Owner...),
+							ShareAccess: lofs.shareAccess,
+							LockCount:   lofs.lockCount,
+							SeqID:       lofs.stateID.seqID,
+							Other:       lofs.stateID.other,
+						})
+					}
+					inc.OpenOwnerFiles = append(inc.OpenOwnerFiles, f)
+				}
+			}
+			for ss := cis.sessions.next; ss != &cis.sessions; ss = ss.next {
+				inc.Sessions = append(inc.Sessions, ss.sessionID)
+			}
+			cis.lock.RUnlock()
+			s.Incarnations = append(s.Incarnations, inc)
+		}
+	}
+	for _, ss := range p.sessionsBySessionID {
+		session := VerifNFS41Session{
+			SessionID: ss.sessionID,
+			ClientID:  ss.clientIncarnation.clientID,
+		}
+		for i := range ss.slots {
+			slot := &ss.slots[i]
+			session.Slots = append(session.Slots, VerifNFS41Slot{
+				LastSequenceID: slot.lastSequenceID,
+				InFlight:       slot.currentSequenceWaiters != nil,
+				Waiters:        len(slot.currentSequenceWaiters),
+				CachedStatus:   slot.lastResult.status,
+				CachedLength:   len(slot.lastResult.resArray),
+			})
+		}
+		s.Sessions = append(s.Sessions, session)
+	}
+	return s, true
+}
+
+// VerifNFS41LocksFree reports whether the program's global lock and
+// the locks of all client incarnations can currently be acquired.
+func VerifNFS41LocksFree(program nfsv4.Nfs4Program) bool {
+	p, ok := program.(*nfs41Program)
+	if !ok {
+		return false
+	}
+	if !p.clientsLock.TryLock() {
+		return false
+	}
+	defer p.clientsLock.Unlock()
+	free := true
+	for _, cis := range p.clientIncarnationsByClientID {
+		if cis.lock.TryLock() {
+			cis.lock.Unlock()
+		} else {
+			free = false
+		}
+	}
+	return free
+}
+
+// VerifNFS41PoolLock is a copy of a byte-range lock stored in the
+// opened files pool.
+type VerifNFS41PoolLock struct {
+	OwnerClientID uint64
+	Owner         []byte
+	Start         uint64
+	End           uint64
+	Type          virtual.ByteRangeLockType
+}
+
+// VerifNFS41PoolFile is a copy of an OpenedFile.
+type VerifNFS41PoolFile struct {
+	Handle   []byte
+	UseCount int
+	Locks    []VerifNFS41PoolLock
+}
+
+// VerifNFS41PoolState returns a copy of the contents of an
+// OpenedFilesPool.
+func VerifNFS41PoolState(ofp *OpenedFilesPool) []VerifNFS41PoolFile {
+	ofp.lock.RLock()
+	defer ofp.lock.RUnlock()
+	var files []VerifNFS41PoolFile
+	for _, of := range ofp.filesByHandle {
+		f := VerifNFS41PoolFile{
+			Handle:   append([]byte(nil), of.handle...),
+			UseCount: int(of.useCount),
+		}
+		of.locksLock.RLock()
+		for _, l := range of.locks.VerifEntries() {
+			pl := VerifNFS41PoolLock{
+				Start: l.Start,
+				End:   l.End,
+				Type:  l.Type,
+			}
+			if l.Owner != nil {
+				pl.OwnerClientID = l.Owner.Clientid
+				pl.Owner = append([]byte(nil), l.Owner.Owner...)
+			}
+			f.Locks = append(f.Locks, pl)
+		}
+		of.locksLock.RUnlock()
+		files = append(files, f)
+	}
+	sort.Slice(files, func(i, j int) bool { return string(files[i].Handle) < string(files[j].Handle) })
+	return files
+}
